@@ -5,7 +5,8 @@ proofs : coq/theories/C14 (selection <-> designated field modulo refuted shapes 
          and writes land there; forward/index/iteration/listed types = the field type's own impl on that field;
          AsRef identity for listed types equal to the field type; impl sets)
 tie    : Coq model (common.coq_eval) vs the real expanders (in-process `expand`, canonicalised impl summaries:
-         trait, self kind, associated types, body term) on every generated struct
+         trait, self kind, associated types, body term, generic parameters and where-predicates of the impl header)
+         on every generated struct / enum / union
 oracle : (a) an independent Python evaluator of the doc/property rules decides which field is designated and
          whether a call is direct / forwarded / identity; (b) the REAL proc-macro compiled by rustc in a generated
          crate: ptr::eq between what the derived impl returns and the designated field (or what the field's own
@@ -361,15 +362,30 @@ def item_src(case, pub=False, both=False):
     p = "pub " if pub else ""
     sat = " ".join(attr_src(n, a) for n in names for a in case["sattrs"])
     fty = rust_ty(c_fty(case))
+    kind = case.get("kind", "struct")
+    if kind == "union":
+        return (sat + " " if sat else "") + "union S { a: u32, b: u32 }"
+    if kind == "enum":
+        vs = []
+        for k, (vat, vnamed, vfields) in enumerate(case["variants"]):
+            fs = []
+            for j, fa in enumerate(vfields):
+                at = " ".join(attr_src(n, a) for n in names for a in fa)
+                fs.append((at + " " if at else "") + ((NAMES[j] + ": ") if vnamed else "") + fty)
+            vb = "" if not vfields else (" { " + ", ".join(fs) + " }" if vnamed else "(" + ", ".join(fs) + ")")
+            va = " ".join(attr_src(n, a) for n in names for a in vat)
+            vs.append((va + " " if va else "") + "V%d" % k + vb)
+        return (sat + " " if sat else "") + "enum S" + c_gen(case)[0] + " { " + ", ".join(vs) + " }"
+    wh = (" where " + ", ".join(case["where"])) if case.get("where") else ""
     fields = []
     for j, fa in enumerate(case["fattrs"]):
         at = " ".join(attr_src(n, a) for n in names for a in fa)
         nm = (NAMES[j] + ": ") if case["named"] else ""
         fields.append((at + " " if at else "") + p + nm + fty)
     if case["named"]:
-        body = " { " + ", ".join(fields) + " }"
+        body = wh + " { " + ", ".join(fields) + " }"
     else:
-        body = "(" + ", ".join(fields) + ");"
+        body = "(" + ", ".join(fields) + ")" + wh + ";"
     return (sat + " " if sat else "") + p + "struct S" + c_gen(case)[0] + body
 
 
@@ -379,15 +395,33 @@ def coq_expr(case):
                                    for fa in [case["sattrs"]] + case["fattrs"] for a in fa):
         return None
     fty = coq_ty(c_fty(case))
-    if d in DKIND:
-        fields = "; ".join("(%s, [%s])" % (fty, "; ".join(attr_coq_state(a) for a in fa)) for fa in case["fattrs"])
-        return "derive_state %s [%s] [%s]" % (DKIND[d], "; ".join(attr_coq_state(a) for a in case["sattrs"]), fields)
     (_, gt, gl, gc) = c_gen(case)
-    g = "{| g_types := [%s]; g_lifetimes := [%s]; g_consts := [%s] |}" % (
-        "; ".join(str(nid(x)) for x in gt), "; ".join(str(nid("'" + x)) for x in gl), "; ".join(str(nid(x)) for x in gc))
-    fields = "; ".join("(%s, [%s])" % (fty, "; ".join(attr_coq_as(a, False) for a in fa)) for fa in case["fattrs"])
-    return "derive_as %s %s [%s] [%s]" % (g, "true" if d == "AsMut" else "false",
-                                          "; ".join(attr_coq_as(a, True) for a in case["sattrs"]), fields)
+    # the struct's generics in SOURCE order (lifetimes, then types/consts as written) and its own predicates
+    order = case["x"].get("order") if "x" in case else None
+    params = order or ([("KLife", "'" + x) for x in gl] + [("KTy", x) for x in gt] + [("KConst", x) for x in gc])
+    sg = "{| sg_params := [%s]; sg_where := [%s] |}" % (
+        "; ".join("(%s, %d)" % (k, nid(x)) for (k, x) in params),
+        "; ".join(str(nid("where:" + w)) for w in case.get("where", [])))
+    kind = case.get("kind", "struct")
+    if d in DKIND:
+        if kind == "union":
+            it = "IUnion"
+        elif kind == "enum":
+            it = "(IEnum [%s] [%s])" % (
+                "; ".join(attr_coq_state(a) for a in case["sattrs"]),
+                "; ".join("([%s], [%s])" % ("; ".join(attr_coq_state(a) for a in vat),
+                                            "; ".join("[%s]" % "; ".join(attr_coq_state(a) for a in fa) for fa in vfs))
+                          for (vat, _, vfs) in case["variants"]))
+        else:
+            fields = "; ".join("(%s, [%s])" % (fty, "; ".join(attr_coq_state(a) for a in fa)) for fa in case["fattrs"])
+            it = "(IStruct [%s] [%s])" % ("; ".join(attr_coq_state(a) for a in case["sattrs"]), fields)
+        return "derive_state_item %s %s %s" % (DKIND[d], sg, it)
+    if kind != "struct":
+        it = "AEnum" if kind == "enum" else "AUnion"
+    else:
+        fields = "; ".join("(%s, [%s])" % (fty, "; ".join(attr_coq_as(a, False) for a in fa)) for fa in case["fattrs"])
+        it = "(AStruct [%s] [%s])" % ("; ".join(attr_coq_as(a, True) for a in case["sattrs"]), fields)
+    return "derive_as_item %s %s %s" % (sg, "true" if d == "AsMut" else "false", it)
 
 
 # ------------------------------------------------------------------ canonical form of the REAL expansion
@@ -505,12 +539,16 @@ def canon_real(resp, case):
     if "panic" in resp:
         if "only works when forwarding to a single field" in resp["panic"]["msg"]:
             return ("diag", "DOneField")
+        if re.match(r"cannot derive\(\w+\) for union$", resp["panic"]["msg"]):
+            return ("diag", "DUnion")
         return ("internal", resp["panic"])
     if "ok" not in resp:
         return ("internal", resp)
     out = []
+    headers = []
     for it in resp["items"]:
         assert it["kind"] == "impl", it
+        headers.append(([canon_s(x) for x in it["params"]], [canon_pred(x) for x in it["where"]]))
         tr = canon_trait(toks(it["trait"]))
         rk = rk_of(toks(it["self_ty"]))
         assoc = []
@@ -533,15 +571,28 @@ def canon_real(resp, case):
                     idx = member_index(members.pop(), case) if len(members) == 1 else None
                     body = ("opaque", m["body"], idx)
         out.append((tr, rk, assoc, body))
-    return ("impls", out)
+    return ("impls", out, headers)
+
+
+def canon_pred(src):
+    """a where-predicate of the expansion: ('bound', ref kind, type, trait) when it is `Ty: <derive_more trait path>`,
+    else ('orig', text) (a predicate of the struct itself)"""
+    ts = toks(src)
+    try:
+        lhs, j = until(ts, 0, {":"})
+        return ("bound", rk_of(lhs), "".join(strip_ref(lhs)), canon_trait(ts[j + 1:]))
+    except ValueError:
+        return ("orig", canon_s(src))
 
 
 # ------------------------------------------------------------------ canonical form of the MODEL's answer
 
 def canon_model(t, names):
     if t[0] == "inl":
-        return ("diag", t[1])
+        d = t[1]
+        return ("diag", d[1] if isinstance(d, tuple) else d)      # DStruct d | DUnion | (AsRef) d
     out = []
+    headers = []
 
     def tr_c(x):
         if isinstance(x, str):
@@ -564,7 +615,23 @@ def canon_model(t, names):
             return ("extract", e[1] == "true", coq_ty_back(e[2], names), coq_ty_back(e[3], names), ex_c(e[4]))
         raise ValueError(e)
 
-    for im in t[1]:
+    def par_c(x):
+        if x == "ILifeDM":
+            return DM_LT
+        if x == "IIdxT":
+            return "__IdxT"
+        if x == "IAsT":
+            return "__AsT:?derive_more::core::marker::Sized"
+        (_, k, n) = x
+        return {"KLife": "%s", "KTy": "%s", "KConst": "const%s:usize"}[k] % names[n]
+
+    def pred_c(x):
+        if x[0] == "WOrig":
+            return ("orig", canon_s(names[x[1]][len("where:"):]))
+        return ("bound", x[1], coq_ty_back(x[2], names), tr_c(x[3]))
+
+    for (im, hd) in t[1]:
+        headers.append(([par_c(x) for x in hd["h_params"]], [pred_c(x) for x in hd["h_where"]]))
         assoc = []
         for a in im["im_assoc"]:
             if a[0] == "AsTy":
@@ -574,7 +641,7 @@ def canon_model(t, names):
         body = ex_c(im["im_body"])
         assert body_field(body) == im["im_field"], im
         out.append((tr_c(im["im_trait"]), im["im_self"], assoc, body))
-    return ("impls", out)
+    return ("impls", out, headers)
 
 
 def body_field(b):
@@ -878,9 +945,55 @@ def tref(t, lt=None, mut=False):
     return ("ref", lt, mut, t)
 
 
+WHERE_OF = {"fld": "u32: Copy", "c": "[u8; N]: Sized"}
+
+
+def add_where_clauses(rng, cases):
+    """a struct-level where-clause on a share of the structs (its predicates must survive, in order, next to
+    the ones the derive adds)"""
+    for c in cases:
+        if c.get("kind", "struct") == "struct" and rng.random() < 0.15:
+            if "x" in c:
+                c["where"] = ["T: Clone"] + (["[u8; N]: Sized"] if rng.random() < 0.5 else [])
+            else:
+                c["where"] = [WHERE_OF.get(c["flavour"], "T: Clone")]
+
+
+def gen_non_struct_cases(rng, tier):
+    """enums (attributes on the enum, the variants and their fields, well-formed or not) and unions"""
+    cases = []
+    for d in list(DKIND) + ["AsRef", "AsMut"]:
+        is_as = d in ("AsRef", "AsMut")
+        pos = ("empty",) if is_as else ("bare",)
+        ign = ("skip", "ignore") if is_as else ("list", ["ignore"])
+        bad = ("malformed",) if is_as else ("list", ["bogus"])
+        fwd = ("forward",) if is_as else ("list", ["forward"])
+        shapes = [
+            [([], False, [[]])],
+            [([], False, [[pos]]), ([], False, [])],
+            [([], True, [[pos], [ign]]), ([], False, [[]])],
+            [([pos], False, [[]]), ([ign], True, [[], []])],
+            [([], False, [[]]), ([], False, [[bad]])],
+            [([bad], False, [[]]), ([], False, [[bad]])],
+            [([], False, [[fwd]]), ([], True, [[pos, pos]])],
+            [],
+        ]
+        for vs in shapes:
+            for sat in ([], [fwd], [bad]):
+                cases.append({"derive": d, "flavour": rng.choice(["fld", "g"]), "named": False, "kind": "enum", "sattrs": sat,
+                              "fattrs": [], "variants": vs, "group": "enum"})
+        for sat in ([], [pos]):
+            cases.append({"derive": d, "flavour": "fld", "named": True, "kind": "union", "sattrs": sat, "fattrs": [],
+                          "group": "union"})
+    return cases
+
+
 def gen_exotic_cases(rng, tier):
     """model-vs-code only (never compiled): types that exercise GenericsSearch::any_in and the token equality"""
     gen = {"src": "<'a, T, const N: usize>", "types": ["T"], "lifetimes": ["a"], "consts": ["N"]}
+    # the same parameters with the const BEFORE the type (index.rs / utils.rs regroup them)
+    gen2 = {"src": "<'a, const N: usize, T>", "types": ["T"], "lifetimes": ["a"], "consts": ["N"],
+            "order": [("KLife", "'a"), ("KConst", "N"), ("KTy", "T")]}
     T, F, I = tid("T"), tid("Fld"), tid("Inner")
     ftys = [tref(T, "a"), tref(F, "a"), tref(F, "b"), tref(F, "static", True), ("array", T, "N"), ("array", F, "N"),
             ("array", F, 3), ("array", F, "M"), tapp(T, F), tqual("a", "T"), tapp(tid("Vec"), tqual("a", "T")),
@@ -897,7 +1010,16 @@ def gen_exotic_cases(rng, tier):
                 cases.append({"derive": d, "flavour": "fld", "named": rng.random() < 0.5, "sattrs": [("types", lst)],
                               "fattrs": [[]], "group": "as-exotic", "x": dict(gen, fty=fty)})
             cases.append({"derive": d, "flavour": "fld", "named": False, "sattrs": [], "group": "as-exotic",
-                          "fattrs": [[("types", [rng.choice(others)])], [("empty",)]], "x": dict(gen, fty=fty)})
+                          "fattrs": [[("types", [rng.choice(others)])], [("empty",)]], "x": dict(gen2, fty=fty)})
+            cases.append({"derive": d, "flavour": "fld", "named": False, "sattrs": [("forward",)], "group": "as-exotic",
+                          "fattrs": [[]], "x": dict(gen2, fty=fty)})
+    # the State-based derives over the same generics: header only (params regrouped, predicates kept)
+    for d in DKIND:
+        for fty in ftys[:8]:
+            for g_ in (gen, gen2):
+                pos = state_positive(rng, d)
+                cases.append({"derive": d, "flavour": "fld", "named": rng.random() < 0.5, "sattrs": [], "group": "state-exotic",
+                              "fattrs": [[pos], []], "x": dict(g_, fty=fty)})
     return cases
 
 
@@ -1189,7 +1311,9 @@ def run(tier, seed, replay):
     if replay:
         cases = [detuple(json.load(open(replay))["replay"]["case"])]
     else:
-        cases = gen_state_cases(rng, tier) + gen_as_cases(rng, tier) + gen_exotic_cases(rng, tier)
+        cases = gen_state_cases(rng, tier) + gen_as_cases(rng, tier) + gen_exotic_cases(rng, tier) + \
+            gen_non_struct_cases(rng, tier)
+        add_where_clauses(rng, cases)
     for k, c in enumerate(cases):
         c["id"] = "m%d" % k
         chk.bump("derive:" + c["derive"])
@@ -1246,6 +1370,15 @@ def run(tier, seed, replay):
             if real[0] == "impls":
                 for im in real[1]:
                     chk.bump("exotic:" + body_kind(im[3]))
+            continue
+        if c.get("kind", "struct") != "struct":
+            # docs: "Deriving X is not supported for enums" (nor unions): a diagnostic, whatever the attributes
+            chk.count((c["derive"], src), True)
+            chk.bump("real:" + real[0] + "(" + c["kind"] + ")")
+            if real[0] != "diag":
+                chk.violation("accepts-non-struct", {"case": pub(c), "item": src, "code": real},
+                              "derive(%s) on the %s `%s` must be rejected but expands to %s" %
+                              (c["derive"], c["kind"], src, str(real)[:300]))
             continue
         # ---- oracle 1: the doc rules decide the designated field and the kind of call
         is_as = c["derive"] in ("AsRef", "AsMut")
@@ -1375,7 +1508,10 @@ def run(tier, seed, replay):
              "owned,ref,ref_mut subsets), struct-level forward / ref kinds, malformed and duplicated attributes; AsRef/AsMut: "
              "struct- and field-level forward / type lists (field type, alias, parenthesised, `crate::`-qualified, other types; "
              "1-3 entries, all orders), every none/bare/skip/forward/types pattern over 2..4 fields, merged and conflicting "
-             "attributes. Every struct goes through the real expander (in-process) and the Coq model (canonical impl lists "
+             "attributes; lists mixing generic and non-generic listed types in every order and split over several attributes "
+             "(const-generic structs with a non-generic field), field types mentioning a parameter before a non-parameter "
+             "lifetime (path argument, dyn bound, fn type), struct-level where-clauses, enums (attributes at every level, "
+             "well-formed or not) and unions. Every struct goes through the real expander (in-process) and the Coq model (canonical impl lists "
              "compared); every accepted, coherent struct (sampled to the tier's budget, multi-field first) is compiled with the "
              "real proc-macro and each impl is observed at run time. non-trivial = at least two fields or at least one "
              "attribute; distinct by (derive, struct source)",
